@@ -468,6 +468,12 @@ class Evaluator:
         init = inits.get(v, UNBOUND)
         if bv.op == 'phi' and bv.args[0] == lid:
           scope.vars[v] = init
+        elif bv.op == 'bin' and bv.args[0] == '+' and bv.args[1].op == 'phi' and bv.args[1].args[0] == lid and bv.args[1].args[1] == v and \
+            init.op in ('tuple', 'list') and bv.args[2].op == init.op:
+          # acc = acc + (x,) / acc += [x] in every iteration: the same accumulation as acc.append(x)
+          scope.vars[v] = T(init.op, *(init.args + tuple(
+              T('star', (e.args[0] if e.op == 'star' else e), T('loopdom', lid, it, (), (e.args[1] if e.op == 'star' else NONE)))
+              for e in bv.args[2].args)))
         else:
           scope.vars[v] = T('loop', lid, v, init, bv)
     self.exec_block(s.orelse, scope)
